@@ -66,7 +66,7 @@ def renderA (s : SqlSelectA) : String :=
 /-! ## The compiler -/
 
 def aggKey (name : String) : Sel → Bool
-  | .agg k _ _ => k == name
+  | .agg k _ _ => decide (k = name)
   | _ => false
 
 /-- `build_filter`: a filter whose name is the alias of an aggregate is a HAVING filter -/
